@@ -45,6 +45,9 @@ type vfCStream struct {
 	// returns io.EOF and, as gRPC does on a terminated stream, every later Send returns io.EOF
 	endAfter int
 	ended    bool
+	// sendOKAfterEnd: after the server ended the RPC, Send still "succeeds" for a while (gRPC buffers writes):
+	// nothing is ever answered, and the client's sender only notices the end at its next loop check
+	sendOKAfterEnd bool
 	// closeErr: the status with which the server answers the client's half-close (nil: OK, Recv returns io.EOF)
 	closeErr   error
 	halfClosed bool
@@ -66,7 +69,11 @@ func (s *vfCStream) closeResp() {
 func (s *vfCStream) Send(m *spb.ModifyRequest) error {
 	s.mu.Lock()
 	if s.ended {
+		ok := s.sendOKAfterEnd
 		s.mu.Unlock()
+		if ok {
+			return nil
+		}
 		return io.EOF
 	}
 	i := len(s.sent)
@@ -213,10 +220,19 @@ func vfC14(sched int) {
 	}
 	burst := 8 // more than the send buffer (5) plus the message in flight
 	qDone := make(chan struct{})
+	// the burst is queued after StartSending, or before it (StartSending then flushes the waiting queue itself)
+	prequeued := vfBool("burst-queued-before-start-sending")
 	go func() {
-		c.StartSending()
-		for i := 0; i < burst; i++ {
-			c.Q(vfCOpN(uint64(i + 1)))
+		if prequeued {
+			for i := 0; i < burst; i++ {
+				c.Q(vfCOpN(uint64(i + 1)))
+			}
+			c.StartSending()
+		} else {
+			c.StartSending()
+			for i := 0; i < burst; i++ {
+				c.Q(vfCOpN(uint64(i + 1)))
+			}
 		}
 		close(qDone)
 	}()
@@ -344,6 +360,7 @@ func VfC14_endedThenQueue() {
 	st := vfNewCStream()
 	k := vfInt("answered-before-end", 0, 2)
 	st.endAfter = 2 + k // handshake: session parameters + election id
+	st.sendOKAfterEnd = vfBool("send-after-end-still-succeeds")
 	stub := &vfCStub{streams: []*vfCStream{st}}
 	c, err := New(ElectedPrimaryClient(&spb.Uint128{Low: 1}), PersistEntries())
 	if err != nil {
@@ -359,23 +376,41 @@ func VfC14_endedThenQueue() {
 		c.Q(vfCOpN(uint64(i + 1)))
 	}
 	vfSettleC()
-	// the stream is over; the application does not know yet
-	qDone := make(chan struct{})
-	go func() {
-		for i := 0; i < 3; i++ {
-			c.Q(vfCOpN(uint64(10 + i)))
-		}
-		close(qDone)
-	}()
-	vfSettleC()
-	vfAssert(vfClosed(qDone), "C14:calls-that-queue-requests-return")
-	if !vfClosed(qDone) {
-		return
+	// the stream is over; the application does not know yet.  It queues three more requests, slower than the
+	// client's goroutines act (they run to quiescence after every request)
+	for i := 0; i < 3; i++ {
+		c.Q(vfCOpN(uint64(10 + i)))
+		vfSettleC()
 	}
+	vfReach("queued")
 	se, re := c.hasErrors()
-	vfAssert(len(se)+len(re) > 0, "C14:stream-error-recorded")
+	if !st.sendOKAfterEnd {
+		vfAssert(len(se)+len(re) > 0, "C14:stream-error-recorded")
+	}
+	// accounting (C13): an operation handed to Q is queued, pending or resulted - or its loss is reported
+	pend, _ := c.Pending()
+	resd, _ := c.Results()
+	accounted := 0
+	for _, p := range pend {
+		if o, ok := p.(*PendingOp); ok && o.Op.GetId() >= 10 {
+			accounted++
+		}
+	}
+	for _, x := range resd {
+		if x.OperationID >= 10 {
+			accounted++
+		}
+	}
+	c.qs.sendMu.RLock()
+	for _, m := range c.qs.sendq {
+		accounted += len(m.GetOperation())
+	}
+	c.qs.sendMu.RUnlock()
+	vfAssert(accounted == 3 || len(se)+len(re) > 0, "C13:operation-handed-to-Q-is-accounted-for-or-its-loss-is-reported")
 	if len(se)+len(re) > 0 {
 		vfAssert(c.AwaitConverged(ctx) != nil, "C14:await-converged-returns-the-error")
+	} else if accounted < 3 {
+		vfAssert(c.AwaitConverged(ctx) != nil, "C13:convergence-not-reported-for-operations-that-were-never-sent")
 	}
 	vfAssert(c.Close() == nil, "C14:close-returns")
 	vfReach("end")
